@@ -1018,16 +1018,16 @@ def check_budget(case) -> Outcome:
                 if po is None:
                     continue
                 seen += 1
-                if po.allowed_mem != exp_a:
-                    fails.append(Failure(f"budget:op-allowed_mem:{d.get('op_name')}", f"{nname} has allowed_mem {po.allowed_mem}, Spec says {exp_a}"))
-                if po.reserved_mem != exp_r:
-                    fails.append(Failure(f"budget:op-reserved_mem:{d.get('op_name')}", f"{nname} has reserved_mem {po.reserved_mem}, Spec says {exp_r}"))
+                if po.allowed_mem != spec.allowed_mem:
+                    fails.append(Failure(f"budget:op-allowed_mem:{d.get('op_name')}", f"{nname} has allowed_mem {po.allowed_mem}, its arrays' Spec says {spec.allowed_mem}"))
+                if po.reserved_mem != spec.reserved_mem:
+                    fails.append(Failure(f"budget:op-reserved_mem:{d.get('op_name')}", f"{nname} has reserved_mem {po.reserved_mem}, its arrays' Spec says {spec.reserved_mem}"))
                 labels.append(f"opkind:{d.get('op_name')}")
             nops += seen
             if seen:
                 got = getattr(fp, "allowed_mem", getattr(fp, "_allowed_mem", None))
-                if got != exp_a:
-                    fails.append(Failure("budget:plan-allowed_mem", f"FinalizedPlan.allowed_mem {got}, Spec says {exp_a}"))
+                if got != spec.allowed_mem:
+                    fails.append(Failure("budget:plan-allowed_mem", f"FinalizedPlan.allowed_mem {got}, its arrays' Spec says {spec.allowed_mem}"))
         labels.append("has-primitive-ops" if nops else "no-primitive-ops")
     return Outcome(nontrivial=nops > 0, labels=tuple(sorted(set(labels))), failures=tuple(fails))
 
